@@ -118,6 +118,8 @@ structure Env where
 def scalarErrs (sch : Fields) (inst : J) (path : List PathEl) : List Err :=
   (match lookup s%"type" sch with
    | some (.str t) => if typeOk t inst then [] else [(path, s%"type")]
+   | some (.list ts) =>      -- Draft 4: `type` may be a list of type names, any of which may fit
+     if ts.any (fun t => match t with | .str t => typeOk t inst | _ => false) then [] else [(path, s%"type")]
    | _ => []) ++
   (match lookup s%"enum" sch with
    | some (.list vs) => if vs.any (jEq inst) then [] else [(path, s%"enum")]
